@@ -93,6 +93,8 @@ pub struct Ctx {
     pub counters: BTreeMap<String, u64>,
     pub maxes: BTreeMap<String, u64>,
     pub sets: BTreeMap<String, BTreeSet<String>>,
+    /// coverage bitsets (merged by OR; reported as the number of bits set)
+    pub bitsets: BTreeMap<String, Vec<u64>>,
     pub samples: Vec<Value>,
     pub violations: Vec<Violation>,
     pub inconclusive: Vec<String>,
@@ -120,6 +122,7 @@ impl Ctx {
             counters: BTreeMap::new(),
             maxes: BTreeMap::new(),
             sets: BTreeMap::new(),
+            bitsets: BTreeMap::new(),
             samples: Vec::new(),
             violations: Vec::new(),
             inconclusive: Vec::new(),
@@ -148,6 +151,13 @@ impl Ctx {
         let s = self.sets.entry(key.to_owned()).or_default();
         if s.len() < 400 {
             s.insert(v.into());
+        }
+    }
+
+    pub fn bit(&mut self, key: &str, size: usize, bit: usize) {
+        let v = self.bitsets.entry(key.to_owned()).or_insert_with(|| vec![0u64; (size + 63) / 64]);
+        if bit < size {
+            v[bit / 64] |= 1 << (bit % 64);
         }
     }
 
@@ -357,6 +367,7 @@ pub fn write_shard_report(ctx: &Ctx, out: &str) {
         "counters": ctx.counters,
         "maxes": ctx.maxes,
         "sets": ctx.sets,
+        "bitsets": ctx.bitsets,
         "samples": ctx.samples,
         "violations": ctx.violations.iter().map(|v| v.to_json()).collect::<Vec<_>>(),
         "inconclusive": ctx.inconclusive,
